@@ -9,7 +9,7 @@ use refbbs::Suite;
 use serde_json::{json, Value};
 use std::sync::{Arc, Barrier};
 
-pub const OPS: [&str; 8] = ["proof_gen(D=none)", "proof_gen(D=all)", "blind_proof_gen", "commit(M=0)", "commit(M=2)", "BlindFactor::random", "KeyPair::random", "generate_random_secret(32)"];
+pub const OPS: [&str; 9] = ["proof_gen(D=none)", "proof_gen(D=all)", "blind_proof_gen", "commit(M=0)", "commit(M=2)", "BlindFactor::random", "KeyPair::random", "generate_random_secret(32)", "commit(None)"];
 
 #[derive(Clone, Default)]
 pub struct Obs {
@@ -104,9 +104,9 @@ pub fn run_op(s: Suite, op: usize, label: &str) -> Obs {
                 other => o.errors.push(format!("{}: {}", label, other.describe())),
             }
         }
-        3 | 4 => {
-            let cms: Vec<Vec<u8>> = if op == 3 { vec![] } else { vec![b"cm-0".to_vec(), b"cm-1".to_vec()] };
-            match zk.commit(Some(&cms)) {
+        3 | 4 | 8 => {
+            let cms: Vec<Vec<u8>> = if op == 4 { vec![b"cm-0".to_vec(), b"cm-1".to_vec()] } else { vec![] };
+            match if op == 8 { zk.commit(None) } else { zk.commit(Some(&cms)) } {
                 O::Ok((c, blind)) => {
                     let m = cms.len();
                     if c.len() != 112 + 32 * m { o.errors.push(format!("{}: commitment length {}", label, c.len())); return o; }
@@ -139,7 +139,7 @@ pub fn run_op(s: Suite, op: usize, label: &str) -> Obs {
             O::Ok((sk, pk)) => { o.scalars.push((format!("{label}.sk"), sk.try_into().unwrap())); o.points.push((format!("{label}.pk"), pk)); }
             other => o.errors.push(format!("{}: {}", label, other.describe())),
         },
-        _ => match zk.random_secret(32) {
+        _ => match zk.random_secret(32) { // op 7
             O::Ok(b) => { let x = refbbs::os2ip_mod_r(&b); o.scalars.push((format!("{label}.secret mod r"), x.to_be_bytes())); o.points.push((format!("{label}.secret bytes"), b)); }
             other => o.errors.push(format!("{}: {}", label, other.describe())),
         },
@@ -299,6 +299,9 @@ pub fn run(env: &Env) {
     for s in suites() {
         let mut ns: Vec<usize> = (0..=if env.thorough() { 300 } else { 72 }).collect(); ns.extend([128, 257]);
         for n in ns { for pr in [true, false] { if !env.thorough() && s == Suite::Shake256 && n % 8 != 1 && n % 8 != 0 { continue; } roots.push(Root { id: format!("{}/wide/{}/{}", s.name(), if pr { "proof_gen(U)" } else { "commit(M)" }, n), suite: s, hist: vec![if pr { 0 } else { 4 }], placement: 0, kind: 3, wide: n, dup: 0 }); } }
+        // proof_gen with a disclosed-index list that repeats entries (the prover sorts and de-duplicates; the hidden messages must
+        // still get one fresh nonce each)
+        for (k, lst) in [vec![1usize, 1, 1], vec![0, 2, 0, 2], vec![0, 0], vec![3, 3, 3, 3, 3]].into_iter().enumerate() { roots.push(Root { id: format!("{}/redundant-index-list/{:?}", s.name(), lst), suite: s, hist: lst, placement: k, kind: 5, wide: 5, dup: 0 }); }
         // equal messages inside one transcript: all equal, and repeating with period 2 / 3
         for (n, dup) in [(2usize, 1usize), (3, 1), (5, 1), (4, 2), (6, 3), (7, 2)] { for pr in [true, false] { roots.push(Root { id: format!("{}/equal-messages/{}/n{}/period{}", s.name(), if pr { "proof_gen" } else { "commit" }, n, dup), suite: s, hist: vec![if pr { 0 } else { 4 }], placement: 0, kind: 3, wide: n, dup }); } }
     }
@@ -332,6 +335,23 @@ pub fn run(env: &Env) {
             if z0 > 0 { env.ctx.violation(&format!("C07:birthday:zero:{}", OPS[r.hist[0]]), &format!("{} of {} drawn values are zero", z0, total), env.case(&r.id, json!({"operation": OPS[r.hist[0]], "draws": total}))); }
             if e0 > 0 { env.ctx.violation(&format!("C07:birthday:error:{}", OPS[r.hist[0]]), &format!("{} of {} draws failed", e0, n), env.case(&r.id, json!({"operation": OPS[r.hist[0]]}))); }
             env.ctx.class("birthday"); env.ctx.trace();
+            return;
+        }
+        if r.kind == 5 {
+            let (zk, k) = (z(r.suite), key(r.suite, "k0"));
+            let msgs: Vec<Vec<u8>> = (0..r.wide).map(|i| format!("ril-{}", i).into_bytes()).collect();
+            let pk96: [u8; 96] = k.pk.clone().try_into().unwrap();
+            let sig = refbbs::sign(r.suite, &refbbs::octets_to_scalar_strict(&k.sk).unwrap(), &pk96, b"ril", &msgs).unwrap().to_vec();
+            let (a, e) = refbbs::octets_to_signature(&sig).map(|(a, e)| (refbbs::g1_bytes(&a).to_vec(), e)).unwrap();
+            env.ctx.step(); env.ctx.state(&[r.id.as_bytes()]);
+            let mut obs = Obs::default();
+            match zk.proof_gen(&k.pk, &sig, Some(b"ril"), Some(b"ph"), Some(&msgs), Some(&r.hist)) {
+                O::Ok(p) => { let ms = refbbs::messages_to_scalars(r.suite, &msgs, &r.suite.api_id()).unwrap(); let hidden: Vec<(usize, Scalar)> = ms.into_iter().enumerate().filter(|(i, _)| !r.hist.contains(i)).collect(); proof_obs(&mut obs, "ril", r.suite, false, &p, &e, &a, &hidden, "redundant-index-list"); }
+                O::Err(_) => { env.ctx.class("redundant-index-list:refused"); env.ctx.trace(); return; }
+                other => obs.errors.push(format!("proof_gen with index list {:?}: {}", r.hist, other.describe())),
+            }
+            for (cls, what) in invariant(&obs) { env.ctx.violation(&format!("C07:redundant-index-list:{}", cls), &format!("{} (proof_gen with the disclosed-index list {:?})", what, r.hist), env.case(&r.id, json!({"disclosed_index_list": r.hist}))); }
+            env.ctx.class("redundant-index-list"); env.ctx.trace();
             return;
         }
         if r.kind == 3 {
